@@ -1186,3 +1186,242 @@ Proof.
   { unfold cmp_keys, ekey, enc_key. rewrite <- (loc_order p q Hp Hq). reflexivity. }
   rewrite HK. apply Z.eqb_refl.
 Qed.
+
+(* ------------------------------------------------------------------ *)
+(* 10. (round 3) json_eqb is reflexive: oracle_on_model_merge without its premise; lookup laws for
+   paths with index legs; operations on different members of one object commute. *)
+Lemma json_eqb_refl : forall d, json_eqb d d = true.
+Proof.
+  fix IH 1. intros [ | b | z | s | l | l]; cbn [json_eqb].
+  - reflexivity.
+  - destruct b; reflexivity.
+  - apply Z.eqb_refl.
+  - apply beq_bytes_refl.
+  - induction l as [|x l IHl]; [reflexivity|]. rewrite (IH x). exact IHl.
+  - induction l as [|[k x] l IHl]; [reflexivity|]. rewrite beq_bytes_refl, (IH x). exact IHl.
+Qed.
+
+Lemma mres_eqb_refl m : mres_eqb m m = true.
+Proof. destruct m; cbn; [reflexivity | apply json_eqb_refl]. Qed.
+
+Theorem oracle_on_model_merge_full : forall b l r,
+  wf_json b = true -> wf_json l = true -> wf_json r = true -> merge_side_conditions b l r = true ->
+  oracle (CMerge b l r, OMerge (mobs_of (merge_json b l r)) (mobs_of (merge_json b l r)) [] [] [] []) = true.
+Proof.
+  intros b l r Wb Wl Wr HC. apply oracle_on_model_merge; try assumption.
+  rewrite (merge_json_partial b l r Wb Wl Wr HC). apply mres_eqb_refl.
+Qed.
+
+(* ---- lookup laws with index legs ---- *)
+Fixpoint fits (p : list leg) (d : json) : bool :=
+  match p with
+  | [] => true
+  | LKey k :: rest =>
+    match d with
+    | JObj kv => fits rest (match obj_get k kv with Some c => c | None => JNull end)
+    | _ => true
+    end
+  | LIdx n :: rest =>
+    match d with
+    | JArr a => match rest with
+                | [] => N.to_nat n <=? length a
+                | _ => (N.to_nat n <? length a) && fits rest (nth (N.to_nat n) a JNull)
+                end%nat
+    | _ => false
+    end
+  | _ => false
+  end.
+
+Lemma nth_error_set_nth {A} (v : A) : forall n l, (n < length l)%nat -> nth_error (set_nth n v l) n = Some v.
+Proof.
+  induction n as [|n IH]; intros [|x l] H; cbn [length] in H; try lia; cbn [set_nth nth_error]; [reflexivity|].
+  apply IH. lia.
+Qed.
+
+Lemma nth_error_app_end {A} (v : A) l : nth_error (l ++ [v]) (length l) = Some v.
+Proof. induction l as [|x l IH]; [reflexivity | exact IH]. Qed.
+
+Lemma Z_of_N_to_nat n : Z.to_nat (Z.of_N n) = N.to_nat n.
+Proof. rewrite <- N_nat_Z, Nat2Z.id. reflexivity. Qed.
+
+Lemma parse_index_in n len : (N.to_nat n < len)%nat ->
+  parse_index (LIdx n) (Z.of_nat len - 1) = (Z.of_N n, false, false).
+Proof.
+  intros H. unfold parse_index. destruct (Z.of_N n >? Z.of_nat len - 1)%Z eqn:E; [|reflexivity].
+  apply Z.gtb_lt in E. lia.
+Qed.
+Lemma parse_index_over n len : (len <= N.to_nat n)%nat ->
+  parse_index (LIdx n) (Z.of_nat len - 1) = ((Z.of_nat len - 1)%Z, false, true).
+Proof.
+  intros H. unfold parse_index. destruct (Z.of_N n >? Z.of_nat len - 1)%Z eqn:E; [reflexivity|].
+  assert (~ (Z.of_nat len - 1 < Z.of_N n)%Z) by (intros HH; apply Z.gtb_lt in HH; congruence). lia.
+Qed.
+
+Theorem set_then_lookup_idx : forall p d v d', fits p d = true ->
+  walk MSet p d v = ROk d' true -> lookup p d' = Some v.
+Proof.
+  induction p as [|l rest IH]; intros d v d' HF H.
+  - cbn in H. inversion H. reflexivity.
+  - destruct l as [k|n| |]; try discriminate HF.
+    + cbn [fits] in HF. cbn [walk] in H. destruct d; try discriminate H.
+      destruct rest as [|l2 rest2].
+      * cbn [mode_eqb orb] in H. inversion H. cbn [lookup]. rewrite obj_get_set. reflexivity.
+      * destruct (walk MSet (l2 :: rest2) match obj_get k l with Some c => c | None => JNull end v) as [|nd ch] eqn:W; [discriminate|].
+        destruct ch; [|discriminate H]. inversion H. cbn [lookup]. rewrite obj_get_set.
+        apply (IH _ _ _ HF W).
+    + cbn [fits] in HF. destruct d; try discriminate HF. cbn [walk] in H.
+      destruct rest as [|l2 rest2].
+      * apply Nat.leb_le in HF. destruct (Nat.eq_dec (N.to_nat n) (length l)) as [He|Hne].
+        -- rewrite parse_index_over in H by lia. cbn [andb negb mode_eqb] in H. rewrite andb_false_r in H.
+           inversion H. cbn [lookup]. rewrite He. rewrite nth_error_app_end. reflexivity.
+        -- rewrite parse_index_in in H by lia. cbn [andb negb mode_eqb] in H.
+           assert (HG : (Z.of_nat (length l) >? Z.of_N n)%Z = true) by (apply Z.gtb_lt; lia).
+           rewrite HG in H. cbn [andb] in H. inversion H. cbn [lookup]. rewrite Z_of_N_to_nat.
+           rewrite nth_error_set_nth by lia. reflexivity.
+      * apply andb_true_iff in HF as [HL HF]. apply Nat.ltb_lt in HL.
+        rewrite parse_index_in in H by exact HL. cbn [andb negb mode_eqb] in H.
+        assert (HG : (Z.of_nat (length l) >? Z.of_N n)%Z = true) by (apply Z.gtb_lt; lia).
+        rewrite HG in H. cbn [andb] in H. rewrite Z_of_N_to_nat in H.
+        destruct (walk MSet (l2 :: rest2) (nth (N.to_nat n) l JNull) v) as [|nd ch] eqn:W; [discriminate|].
+        destruct ch; [|discriminate H]. inversion H. cbn [lookup].
+        rewrite nth_error_set_nth by exact HL. apply (IH _ _ _ HF W).
+Qed.
+
+(* removal: index legs may lead to the object whose member is removed (removing an array element
+   shifts the following ones into its place, so the law is about object members) *)
+Fixpoint fits_rm (p : list leg) (d : json) : bool :=
+  match p with
+  | [] => false
+  | [LKey _] => true
+  | LKey k :: rest =>
+    match d with
+    | JObj kv => fits_rm rest (match obj_get k kv with Some c => c | None => JNull end)
+    | _ => true
+    end
+  | LIdx n :: rest =>
+    match d with
+    | JArr a => (N.to_nat n <? length a)%nat && fits_rm rest (nth (N.to_nat n) a JNull)
+    | _ => false
+    end
+  | _ => false
+  end.
+
+Lemma nth_wf a : forall n, forallb wf_json a = true -> wf_json (nth n a JNull) = true.
+Proof.
+  induction a as [|x a IH]; intros [|n] H; try reflexivity; cbn [forallb] in H; apply andb_true_iff in H as [H1 H2].
+  - exact H1.
+  - cbn [nth]. apply IH. exact H2.
+Qed.
+
+Theorem remove_then_lookup_idx : forall p d d', fits_rm p d = true -> wf_json d = true ->
+  walk MRemove p d JNull = ROk d' true -> lookup p d' = None.
+Proof.
+  induction p as [|l rest IH]; intros d d' HF HW H; [discriminate HF|].
+  destruct l as [k|n| |]; try discriminate HF.
+  - cbn [walk] in H. destruct d; try discriminate H.
+    cbn [wf_json] in HW. apply andb_true_iff in HW as [HS HV].
+    destruct rest as [|l2 rest2].
+    + cbn [mode_eqb orb andb] in H. rewrite !andb_false_r in H. cbn [orb] in H.
+      destruct (obj_get k l) eqn:G; cbn [andb] in H; [|discriminate H]. inversion H.
+      cbn [lookup]. rewrite obj_get_del by exact HS. reflexivity.
+    + change (fits_rm (LKey k :: l2 :: rest2) (JObj l)) with (fits_rm (l2 :: rest2) match obj_get k l with Some c => c | None => JNull end) in HF.
+      destruct (walk MRemove (l2 :: rest2) match obj_get k l with Some c => c | None => JNull end JNull) as [|nd ch] eqn:W; [discriminate|].
+      destruct ch; [|discriminate H]. inversion H. cbn [lookup]. rewrite obj_get_set.
+      apply (IH _ _ HF) in W; [exact W|].
+      destruct (obj_get k l) eqn:G; [exact (obj_get_wf _ _ _ HV G) | reflexivity].
+  - cbn [fits_rm] in HF. destruct d; try discriminate HF. cbn [wf_json] in HW.
+    apply andb_true_iff in HF as [HL HF]. apply Nat.ltb_lt in HL.
+    cbn [walk] in H. rewrite parse_index_in in H by exact HL. cbn [andb negb mode_eqb] in H.
+    assert (HG : (Z.of_nat (length l) >? Z.of_N n)%Z = true) by (apply Z.gtb_lt; lia).
+    rewrite HG in H. cbn [andb] in H. rewrite Z_of_N_to_nat in H.
+    destruct rest as [|l2 rest2]; [cbn [fits_rm] in HF; discriminate HF|].
+    destruct (walk MRemove (l2 :: rest2) (nth (N.to_nat n) l JNull) JNull) as [|nd ch] eqn:W; [discriminate H|].
+    destruct ch; [|discriminate H]. inversion H. cbn [lookup].
+    rewrite nth_error_set_nth by exact HL. apply (IH _ _ HF (nth_wf _ _ HW) W).
+Qed.
+
+(* ---- operations on different members of one object commute ---- *)
+Lemma lex_cmp_gt_lt a b : lex_cmp a b = Gt -> lex_cmp b a = Lt.
+Proof. intros H. rewrite lex_cmp_antisym, H. reflexivity. Qed.
+Lemma lex_cmp_lt_gt a b : lex_cmp a b = Lt -> lex_cmp b a = Gt.
+Proof. intros H. rewrite lex_cmp_antisym, H. reflexivity. Qed.
+
+Lemma obj_set_comm_lt k1 v1 k2 v2 : lex_cmp k1 k2 = Lt -> forall l,
+  obj_set k1 v1 (obj_set k2 v2 l) = obj_set k2 v2 (obj_set k1 v1 l).
+Proof.
+  intros H12. pose proof (lex_cmp_lt_gt _ _ H12) as H21.
+  induction l as [|[k' v'] t IH].
+  - cbn [obj_set]. rewrite H12, H21. reflexivity.
+  - destruct (lex_cmp k2 k') eqn:C2.
+    + apply lex_cmp_eq in C2. subst k'.
+      repeat (cbn [obj_set]; rewrite ?H12, ?H21, ?lex_cmp_refl). reflexivity.
+    + pose proof (lex_cmp_trans _ _ _ H12 C2) as C1.
+      repeat (cbn [obj_set]; rewrite ?H12, ?H21, ?C1, ?C2). reflexivity.
+    + destruct (lex_cmp k1 k') eqn:C1.
+      * apply lex_cmp_eq in C1. subst k'.
+        repeat (cbn [obj_set]; rewrite ?H12, ?H21, ?C2, ?lex_cmp_refl). reflexivity.
+      * repeat (cbn [obj_set]; rewrite ?H12, ?H21, ?C1, ?C2). reflexivity.
+      * repeat (cbn [obj_set]; rewrite ?H12, ?H21, ?C1, ?C2). rewrite IH. reflexivity.
+Qed.
+
+Theorem obj_set_comm k1 v1 k2 v2 l : k1 <> k2 ->
+  obj_set k1 v1 (obj_set k2 v2 l) = obj_set k2 v2 (obj_set k1 v1 l).
+Proof.
+  intros HN. destruct (lex_cmp k1 k2) eqn:C.
+  - apply lex_cmp_eq in C. contradiction.
+  - apply obj_set_comm_lt. exact C.
+  - symmetry. apply obj_set_comm_lt. apply lex_cmp_gt_lt. exact C.
+Qed.
+
+Lemma beq_bytes_neq a b : a <> b -> beq_bytes a b = false.
+Proof. intros H. destruct (beq_bytes a b) eqn:E; [|reflexivity]. apply beq_bytes_spec in E. contradiction. Qed.
+
+Lemma obj_get_set_other k k' v l : k <> k' -> obj_get k (obj_set k' v l) = obj_get k l.
+Proof.
+  intros HN. induction l as [|[k2 v2] t IH]; cbn [obj_set obj_get].
+  - rewrite (beq_bytes_neq _ _ HN). reflexivity.
+  - destruct (lex_cmp k' k2) eqn:C; cbn [obj_get].
+    + apply lex_cmp_eq in C. subst k2. rewrite (beq_bytes_neq _ _ HN). reflexivity.
+    + rewrite (beq_bytes_neq _ _ HN). reflexivity.
+    + rewrite IH. reflexivity.
+Qed.
+
+Lemma obj_del_del_comm k1 k2 l : obj_del k1 (obj_del k2 l) = obj_del k2 (obj_del k1 l).
+Proof.
+  induction l as [|[k v] t IH]; [reflexivity|]. cbn [obj_del].
+  destruct (beq_bytes k2 k) eqn:E2, (beq_bytes k1 k) eqn:E1; cbn [obj_del]; rewrite ?E1, ?E2; try reflexivity.
+  - apply beq_bytes_spec in E1, E2. subst. reflexivity.
+  - rewrite IH. reflexivity.
+Qed.
+
+(* the implementation's two top-level operations on different members of one object *)
+Definition app (m : mode) (p : list leg) (v : json) (d : json) : json :=
+  match walk m p d v with ROk d' _ => d' | RErr => d end.
+
+Theorem set_set_commute_members : forall k1 k2 v1 v2 kv, k1 <> k2 ->
+  app MSet [LKey k2] v2 (app MSet [LKey k1] v1 (JObj kv)) = app MSet [LKey k1] v1 (app MSet [LKey k2] v2 (JObj kv)).
+Proof.
+  intros k1 k2 v1 v2 kv HN. unfold app. cbn [walk mode_eqb orb]. f_equal. symmetry. apply obj_set_comm. exact HN.
+Qed.
+
+Lemma obj_get_del_other k k' l : k <> k' -> obj_get k (obj_del k' l) = obj_get k l.
+Proof.
+  intros HN. induction l as [|[k2 v2] t IH]; [reflexivity|]. cbn [obj_del].
+  destruct (beq_bytes k' k2) eqn:E; cbn [obj_get].
+  - apply beq_bytes_spec in E. subst k2. rewrite (beq_bytes_neq _ _ HN). reflexivity.
+  - rewrite IH. reflexivity.
+Qed.
+
+Theorem remove_remove_commute_members : forall k1 k2 kv, k1 <> k2 ->
+  app MRemove [LKey k2] JNull (app MRemove [LKey k1] JNull (JObj kv)) = app MRemove [LKey k1] JNull (app MRemove [LKey k2] JNull (JObj kv)).
+Proof.
+  intros k1 k2 kv HN. unfold app. cbn [walk mode_eqb orb andb]. rewrite !andb_false_r. cbn [orb].
+  destruct (obj_get k1 kv) eqn:G1; destruct (obj_get k2 kv) eqn:G2; cbn [andb walk mode_eqb orb]; rewrite ?andb_false_r; cbn [orb];
+    rewrite ?(obj_get_del_other k2 k1 kv (fun H => HN (eq_sym H))), ?(obj_get_del_other k1 k2 kv HN), ?G1, ?G2; cbn [andb];
+    try reflexivity.
+  f_equal. apply obj_del_del_comm.
+Qed.
+
+
+(* Not proved: commutation for paths that share a prefix / for arbitrary pairwise unrelated paths
+   (needed to drop the removal-last side condition of merge_json_partial, which therefore stays). *)
